@@ -68,8 +68,8 @@ def check(case, rec):
     rec.nontrivial((len(ok_kinds) >= 5 and len(set(ok_kinds)) >= 3 and noisy) or rejected > 0)
 
 
-PARTS = [Part("history", cases(25), check, n_quick=3000, n_thorough=4000),
-         Part("long-history", cases(60), check, n_quick=0, n_thorough=500)]
+PARTS = [Part("history", cases(25), check, n_quick=3000, n_thorough=15000),
+         Part("long-history", cases(60), check, n_quick=0, n_thorough=3000)]
 
 
 def coverage_warnings(rec):
